@@ -374,73 +374,104 @@ def _worker_main(modname, stage_idx, k, W, seed_base, tier, q, known_sigs):
 
 # ------------------------------------------------------------------ parent side
 
+class _ConnQueue:
+    """What a worker reports through: its own one-way pipe to the parent. (A multiprocessing.Queue
+    shared by all workers deadlocks the whole stage when a worker is terminated while it holds
+    the queue's write lock or has written half a message; with one pipe per worker the damage
+    of a terminate stays with that worker, whose pipe the parent then stops reading.)"""
+
+    def __init__(self, conn):
+        self.conn = conn
+
+    def put(self, obj):
+        self.conn.send(obj)
+
+
+def _worker_entry(modname, stage_idx, k, W, seed_base, tier, conn, known_sigs):
+    try:
+        _worker_main(modname, stage_idx, k, W, seed_base, tier, _ConnQueue(conn), known_sigs)
+    finally:
+        try:
+            conn.close()
+        except Exception:   # noqa
+            pass
+
+
 def run_stage(mod, stage_idx, stage, tier, seed_base, known_sigs, shrink_cap):
+    from multiprocessing.connection import wait as conn_wait
     W = stage.workers or WORKERS
     ctxm = mp.get_context("fork")
-    q = ctxm.Queue()
     procs = []
+    conns = {}
     for k in range(W):
-        p = ctxm.Process(target=_worker_main,
-                         args=(mod.__name__, stage_idx, k, W, seed_base, tier, q, known_sigs))
+        rd, wr = ctxm.Pipe(duplex=False)
+        p = ctxm.Process(target=_worker_entry,
+                         args=(mod.__name__, stage_idx, k, W, seed_base, tier, wr, known_sigs))
         p.daemon = True
         p.start()
+        wr.close()
         procs.append(p)
+        conns[k] = rd
     alive = set(range(W))
+    reported = set()
     first_fail = {}
     fails = {}          # sig -> smallest (detail, text) reported by any worker
     stats = []
     herr = None
     hard_deadline = time.time() + stage.budget_s[tier] * 1.5 + shrink_cap + 60
+
+    def drop(k):
+        alive.discard(k)
+        c = conns.pop(k, None)
+        if c is not None:
+            try:
+                c.close()
+            except Exception:   # noqa
+                pass
+
     while alive:
-        try:
-            msg = q.get(timeout=0.5)
-        except queue_mod.Empty:
-            msg = None
+        by_conn = {conns[k]: k for k in alive if k in conns}
+        ready = conn_wait(list(by_conn), timeout=0.5) if by_conn else []
         now = time.time()
-        if msg is not None:
+        for c in ready:
+            k = by_conn[c]
+            try:
+                msg = c.recv()
+            except (EOFError, OSError):
+                # the worker is gone and has said all it had to say
+                if k not in first_fail and k not in reported:
+                    herr = herr or "worker %d of stage %s died without reporting" % (
+                        k, stage.name)
+                drop(k)
+                continue
             if msg[0] == "fail":
-                _, k, _, sig, detail, text = msg
-                first_fail.setdefault(k, now)
+                _, kk, _, sig, detail, text = msg
+                first_fail.setdefault(kk, now)
                 _keep(fails, sig, detail, text)
             elif msg[0] == "done":
                 stats.append(msg[3])
-                alive.discard(msg[1])
+                reported.add(msg[1])
+                drop(msg[1])
             elif msg[0] == "herr":
                 herr = msg[3]
-                alive.discard(msg[1])
+                reported.add(msg[1])
+                drop(msg[1])
         for k in list(alive):
-            p = procs[k]
             if k in first_fail and now - first_fail[k] > shrink_cap:
-                p.terminate()
-                alive.discard(k)
-            elif not p.is_alive() and msg is None:
-                # died without a message (e.g. killed); drain once more then drop
-                try:
-                    while True:
-                        m2 = q.get_nowait()
-                        if m2[0] == "done":
-                            stats.append(m2[3]); alive.discard(m2[1])
-                        elif m2[0] == "fail":
-                            first_fail.setdefault(m2[1], now)
-                            _keep(fails, m2[3], m2[4], m2[5])
-                        elif m2[0] == "herr":
-                            herr = m2[3]; alive.discard(m2[1])
-                except queue_mod.Empty:
-                    pass
-                if k in alive:
-                    if k not in first_fail:
-                        herr = herr or "worker %d of stage %s died without reporting" % (
-                            k, stage.name)
-                    alive.discard(k)
-        if now > hard_deadline:
-            for k in alive:
+                # still shrinking: what it has reported so far stands
                 procs[k].terminate()
+                drop(k)
+        if now > hard_deadline:
+            for k in list(alive):
+                procs[k].terminate()
+                drop(k)
             herr = herr or "stage %s exceeded its hard wall-clock limit" % stage.name
             break
     for p in procs:
         p.join(timeout=5)
         if p.is_alive():
             p.kill()
+            p.join(timeout=5)
     return stats, fails, herr
 
 
@@ -584,6 +615,21 @@ def main(argv):
                 continue
             stats, fails, herr = run_stage(mod, idx, stage, a.tier, seed_base, known_sigs,
                                            shrink_cap)
+            if herr and (fails or violations):
+                # a harness error in one worker (e.g. its case was still stuck when the stage's
+                # allowance ran out) does not unsay the failing cases the others have reported:
+                # each is a concrete input with a replay file
+                for line in known_lines:
+                    print(line)
+                for sig, (detail, text) in sorted(fails.items()):
+                    path = write_replay(prop, stage.name, sig, detail, text, seed_base, a.tier)
+                    violations.append((path, sig, detail))
+                for path, sig, detail in violations:
+                    print("VIOLATION property=%s replay=%s" % (prop, path))
+                    print("  signature: %s\n  %s" % (sig, detail[:1200].replace("\n", "\n  ")))
+                print("NOTE property=%s stage=%s also had a harness error: %s" % (
+                    prop, stage.name, str(herr)[:600].replace("\n", " | ")))
+                return 1
             if herr:
                 print("HARNESS-ERROR property=%s stage=%s\n%s" % (prop, stage.name, herr))
                 return 2
